@@ -532,7 +532,8 @@ func run(o hx.RunOpts) error {
 		"read (NoCheck|ForReading|ForWriting, Find+GetCurrentValue+Commit), write (Update+Commit), abort (read+UpdateCurrentValue+Rollback), drop one process's node MRU or Handles cache, flush L2; every answer diffed with Sop.Model.Cache; oracle: read = last committed content and lone commits succeed. "+
 		"distinct = canonical op hash; non-trivial = at least 4 operations. "+
 		"'si' cases (storeinfo.go): 2-4 stores, real fs StoreRepository.Update called directly or by the commit of a real multi-store transaction, with a concurrent removal / an unreadable or read-only storeinfo.txt / an eviction / a refused SetStruct at one store "+
-		"(forward pass or undo); every Add/Update replayed on Sop.Model.StoreInfoCache; after each, per store: cache-first Get/GetWithTTL == cold process == file, file restored after a failed Update, next Update's base = file, Count = items after a following commit; non-trivial = undo ran for at least one store")
+		"(forward pass or undo); every Add/Update replayed on Sop.Model.StoreInfoCache; after each, per store: cache-first Get/GetWithTTL == cold process == file, file restored after a failed Update, next Update's base = file, Count = items after a following commit; non-trivial = undo ran for at least one store"+
+		". 'rg' cases (regget.go): 2-3 registry handles, real fs registries over one shared L2 behind gating L2 clients (parked after GetStructs and before every SetStruct): every merge of the steps of a multi-id Get (every hit/miss pattern) and of an Update/UpdateNoLocks over 1-2 ids, and random histories with up to three concurrent Gets, updaters and evictions; every step diffed with Sop.Model.RegistryGet; oracle: nothing in flight => a warm process's Get of every id == the file; non-trivial = an updater step happened while a Get was in flight")
 	ctx := context.Background()
 	if dbg := os.Getenv("VERIF_C20_DEBUG"); dbg != "" {
 		// "short,ttl;op;op;…" with op = "read 0 forwriting" etc.: one case, for triage
@@ -553,6 +554,13 @@ func run(o hx.RunOpts) error {
 			ops = append(ops, o)
 		}
 		if err := runCase(s, ctx, "mem", "debug", 100, ops, strings.Contains(parts[0], "short"), strings.Contains(parts[0], "ttl")); err != nil {
+			return err
+		}
+		return s.Finish()
+	}
+	if os.Getenv("VERIF_C20_ONLY") == "rg" {
+		// triage: the registry Get cases only
+		if err := runRegGet(s, ctx, hx.NewPrng(o.Seed+4242), o); err != nil {
 			return err
 		}
 		return s.Finish()
@@ -589,6 +597,9 @@ func run(o hx.RunOpts) error {
 		}
 	}
 	if err := runStoreInfo(s, ctx, hx.NewPrng(o.Seed+7777), o); err != nil {
+		return err
+	}
+	if err := runRegGet(s, ctx, hx.NewPrng(o.Seed+4242), o); err != nil {
 		return err
 	}
 	return s.Finish()
